@@ -1,16 +1,34 @@
 /-
 C14 — molar mass is the composition-weighted sum of standard atomic weights.
 
-Property theorems only (helper lemmas live in Proofs/Periodic.lean).
-`refTable` is the reference IUPAC table (symbol, name, standard atomic weight in 10⁻⁹ u;
-conventional values for interval elements, mass number of the longest-lived isotope for
-elements without a standard weight) — part of the specification, transcribed once and
-reviewed; it is NOT regenerated from the repository.
+Property theorems only (helper lemmas live in Proofs/Periodic.lean and Proofs/PeriodicFormula.lean; the formula AST,
+`render`, `occurrences`, `denote`, `WF` are the C01 specification of Model/FormulaSpec.lean, the parser model is the one
+of C01, and `formula_mass_spec` rests on the C01 round-trip theorem `parse_render`).
+
+THE REFERENCE TABLE (`refTable`, same rows as tools/harness/ref_iupac.json) — what it is and what it is not:
+* symbols and names: the IUPAC-approved symbols and (British-spelling: Aluminium, Caesium, Sulfur) names of Z = 1..118.
+* the 84 elements that HAVE an IUPAC standard atomic weight (Z = 1..83 except Tc 43 and Pm 61, plus Th 90, Pa 91, U 92):
+  the value in units of 10⁻⁹ u as printed in the list chempy cites in its source
+  (Wikipedia "Standard atomic weight → List of atomic weights", which reproduces the CIAAW/IUPAC table): the full-precision
+  standard atomic weight where IUPAC gives a single value, and the *conventional* / abridged value (H 1.008, Li 6.94,
+  B 10.81, C 12.011, N 14.007, O 15.999, Mg 24.305, Si 28.085, S 32.06, Cl 35.45, Ar 39.95, Br 79.904, Tl 204.38, Pb 207.2)
+  where IUPAC gives an interval. `standard_weights_are_iupac` is the claim about these rows.
+* the 34 elements WITHOUT a standard atomic weight (Tc, Pm, Po..Ac, Np..Og): IUPAC lists no weight at all, only (in some
+  editions, in brackets) the mass number of the longest-lived known isotope, and that number changes between editions
+  (e.g. Tc [97] or [98], Lr [262] or [266], Rg [281] or [282], Mc [289] or [290], Ts [293] or [294]). chempy writes
+  "[98]", "[266]", "[282]", "[290]", "[294]" … and uses the bare number as mass. For these rows the table *pins the numbers
+  chempy uses today* (`pinnedMassNumbers`); `mass_numbers_pinned` is a regression pin, NOT a claim of agreement with IUPAC.
+* provenance: transcribed once in the design round and reviewed; the sandbox is offline, so the rows could not be re-fetched
+  from ciaaw.org / iupac.org and no newer data can be obtained. An independent review found 0 differences between
+  this table and the repository table, so these theorems protect against *future* corruption of any of the 118 rows (the
+  table is not regenerated from the repository) and record the edition; they are not a fresh, independent confirmation
+  of the 84 values. The fourth column of chempy's table (uncertainty) is used by no code path and is out of scope.
 -/
-import ChemModel.Proofs.Periodic
+import ChemModel.Proofs.PeriodicFormula
 
 namespace ChemModel.C14
 open ChemModel.Periodic ChemModel.Gen
+open ChemModel.Formula (Formula Terms Term Part Charge)
 
 def refTable : List (String × String × Nat) := [
   ("H", "Hydrogen", 1008000000),
@@ -135,42 +153,126 @@ def refTable : List (String × String × Nat) := [
 
 def refWeight (i : Nat) : Option Rat := (refTable[i]?).map fun r => (r.2.2 : Rat) / 1000000000
 
-/-- The extracted symbols, names and weights are the IUPAC table, row by row (atomic number = row + 1). -/
-theorem table_is_iupac :
-    symbols = refTable.map (·.1) ∧ names = refTable.map (·.2.1) ∧
-    (List.range 118).map (fun i => weight? (i + 1)) = (List.range 118).map refWeight ∧
-    symbols.length = 118 := by
+/-- atomic numbers of the elements for which IUPAC publishes NO standard atomic weight -/
+def noStandardWeight : List Nat :=
+  [43, 61, 84, 85, 86, 87, 88, 89] ++ (List.range 26).map (· + 93)
+
+/-- the mass numbers chempy uses for them (a pin of today's table, see the header) -/
+def pinnedMassNumbers : List Nat :=
+  [98, 145, 209, 210, 222, 223, 226, 227,
+   237, 244, 243, 247, 247, 251, 252, 257, 258, 259, 266, 267, 268, 269, 270, 271, 278, 281, 282, 285, 286, 289, 290,
+   293, 294, 294]
+
+/-! ### the table -/
+
+/-- The extracted symbols and names are the IUPAC ones, row by row (atomic number = row + 1), and there are 118. -/
+theorem symbols_names_are_iupac :
+    symbols = refTable.map (·.1) ∧ names = refTable.map (·.2.1) ∧ symbols.length = 118 ∧ names.length = 118 := by
   refine ⟨by decide +kernel, by decide +kernel, by decide +kernel, by decide +kernel⟩
+
+/-- For each of the 84 elements that have an IUPAC standard atomic weight, the weight the code uses for atomic
+    number `z` is the reference value of row `z` (no off-by-one between atomic number and table index). -/
+theorem standard_weights_are_iupac :
+    (∀ z, 1 ≤ z → z ≤ 118 → z ∉ noStandardWeight → weight? z = refWeight (z - 1) ∧ (refWeight (z - 1)).isSome) ∧
+    ((List.range 119).filter fun z => decide (1 ≤ z) && !noStandardWeight.contains z).length = 84 := by
+  have hall : (List.range 118).all (fun i => noStandardWeight.contains (i + 1) ||
+      (weight? (i + 1) == refWeight i && (refWeight i).isSome)) = true := by decide +kernel
+  refine ⟨fun z h1 h2 hz => ?_, by decide +kernel⟩
+  have h := List.all_eq_true.mp hall (z - 1) (List.mem_range.mpr (by omega))
+  have hz1 : z - 1 + 1 = z := by omega
+  rw [hz1] at h
+  have hc : noStandardWeight.contains z = false := by
+    rw [List.contains_eq_mem]; exact decide_eq_false hz
+  rw [hc, Bool.false_or, Bool.and_eq_true] at h
+  exact ⟨eq_of_beq h.1, h.2⟩
+
+/-- For the 34 elements without a standard atomic weight the code uses exactly the pinned mass numbers
+    (whole numbers; a documented pin of chempy's choice, not an IUPAC claim), and the reference rows carry the same numbers. -/
+theorem mass_numbers_pinned :
+    noStandardWeight.map weight? = pinnedMassNumbers.map (fun a => some (a : Rat)) ∧
+    noStandardWeight.map (fun z => refWeight (z - 1)) = pinnedMassNumbers.map (fun a => some (a : Rat)) ∧
+    noStandardWeight.length = 34 := by
+  refine ⟨by decide +kernel, by decide +kernel, by decide +kernel⟩
 
 /-- the electron mass used for the charge term, in u (CODATA: 5.48579909e-4; chempy rounds to 4 digits) -/
 theorem electron_mass_value : electronMass = 5489 / 10000000 := by
   decide +kernel
 
-/-- `mass_from_composition` = Σ count·weight − charge·mₑ, entry by entry (unbounded composition). -/
-theorem mass_spec (c : Comp) : massFromComposition c = massSum c := massFromComposition_eq_sum c
+/-! ### mass of a composition dict -/
+
+/-- `mass_from_composition` against an independent sum: it returns exactly when every key is 0..118, and then the
+    plain `List.sum` of the per-entry contributions `entryMass` (key 0: −amount·mₑ, key z: amount·weight z). -/
+theorem mass_spec (c : Comp) :
+    massFromComposition c = if ∀ p ∈ c, p.1 ≤ 118 then some (c.map entryMass).sum else none :=
+  massFromComposition_eq_entrySum c
 
 /-- it refuses (IndexError) exactly when some key lies outside 0..118 -/
 theorem mass_defined_iff (c : Comp) :
     (massFromComposition c).isSome ↔ ∀ p ∈ c, p.1 ≤ 118 := mass_isSome_iff c
 
-/-- additive over parts: the mass of the per-key sum of two compositions (what the parser
-    builds for hydrates and groups) is the sum of the masses. -/
-theorem mass_additive (a b : Comp) (ma mb : Rat)
-    (ha : massFromComposition a = some ma) (hb : massFromComposition b = some mb) :
-    massFromComposition (addComp a b) = some (ma + mb) := mass_addComp a b ma mb ha hb
+/-- inside 1..118 the number `stdWeight z` used in the sums IS the table weight (the default 0 is never used) -/
+theorem std_weight_is_table_weight (z : Nat) (h1 : 1 ≤ z) (h2 : z ≤ 118) : weight? z = some (stdWeight z) :=
+  weight?_eq_stdWeight z h1 h2
 
-/-- scales with a multiplier -/
-theorem mass_scales (n : Rat) (a : Comp) (ma : Rat) (ha : massFromComposition a = some ma) :
-    massFromComposition (scaleComp n a) = some (n * ma) := mass_scaleComp n a ma ha
+/-! ### mass of a substance created from a formula -/
 
-/-- an ion differs from its neutral parent by exactly the electron masses -/
-theorem ion_vs_neutral (a : Comp) (q ma : Rat) (hn : ∀ p ∈ a, p.1 ≠ 0)
-    (ha : massFromComposition a = some ma) :
-    massFromComposition ((0, q) :: a) = some (ma - q * electronMass) := mass_ion a q ma hn ha
+/-- every element occurring in a well-formed formula is one of the 118 -/
+theorem occurrence_keys_in_table (f : Formula) (h : f.WF) : ∀ p ∈ f.occurrences, 1 ≤ p.1 ∧ p.1 ≤ 118 :=
+  ChemModel.Periodic.occurrence_keys_in_table f h
+
+/-- **The mass of a substance created from a formula.** For every well-formed formula AST `f` (C01 grammar: any
+    nesting depth, hydrate parts, decimal counts, cages, prefixes, charge, phase suffix) the model of
+    `Substance.from_formula(render f).mass` — C01 parser model followed by the `mass_from_composition` loop — returns,
+    and returns `occurrenceMass f` = Σ over every element occurrence of (product of the enclosing multipliers)·weight
+    − (signed charge)·mₑ, a quantity defined on the AST alone. -/
+theorem formula_mass_spec (f : Formula) (h : f.WF) :
+    formulaMass f.renderStr = .ok
+      ((f.occurrences.map fun p => p.2 * stdWeight p.1).sum - f.denote 0 * electronMass) :=
+  formulaMass_render f h
+
+/-- the same through `Species.from_formula(render f)` with its default phases -/
+theorem species_mass_spec (f : Formula) (h : f.WF) :
+    speciesMass defaultPhases f.renderStr = .ok (occurrenceMass f) :=
+  speciesMass_render f h
+
+/-- `Substance.from_formula(s).mass` returns at all exactly when the parser accepts `s` and every key is in the table -/
+theorem formula_mass_defined_iff (s : String) :
+    (∃ m, formulaMass s = .ok m) ↔
+      ∃ c, ChemModel.Formula.formulaToComposition s = .ok c ∧ ∀ p ∈ c, p.1 ≤ 118 :=
+  formulaMass_ok_iff s
+
+/-- **Additive over hydrate parts**: `mass(A..nB) = mass(A) + n·mass(B)` on ASTs. `f` is any well-formed formula whose
+    last part is `p` (leading count `p.mult`, 1 when omitted); `A` is `f` without that part (prefixes, charge, suffix kept)
+    and `B` is the bare formula made of `p`'s terms. -/
+theorem hydrate_additive (f : Formula) (ps : List Part) (p : Part) (hp : f.parts = ps ++ [p])
+    (hf : f.WF) (hA : ({ f with parts := ps } : Formula).WF) (hB : (bareFormula p.terms).WF) :
+    ∃ mA mB, formulaMass ({ f with parts := ps } : Formula).renderStr = .ok mA ∧
+      formulaMass (bareFormula p.terms).renderStr = .ok mB ∧
+      formulaMass f.renderStr = .ok (mA + p.mult * mB) :=
+  ⟨_, _, formulaMass_render _ hA, formulaMass_render _ hB, by
+    rw [formulaMass_render f hf, occurrenceMass_snoc f ps p hp]⟩
+
+/-- **Scales with a group multiplier**: `mass((X)n) = n·mass(X)` for any bracket kind, any (integer or decimal) count. -/
+theorem group_scales (b : ChemModel.Formula.Br) (body : Terms) (n : ChemModel.Formula.Cnt)
+    (st : Option ChemModel.Formula.St) (marks : List Char)
+    (hG : (bareFormula (.cons (.group b body n st marks) .nil)).WF) (hX : (bareFormula body).WF) :
+    ∃ mX, formulaMass (bareFormula body).renderStr = .ok mX ∧
+      formulaMass (bareFormula (.cons (.group b body n st marks) .nil)).renderStr = .ok (n.val * mX) :=
+  ⟨_, formulaMass_render _ hX, by rw [formulaMass_render _ hG, occurrenceMass_group]⟩
+
+/-- **An ion differs from its neutral parent by exactly the electron masses**: the formula with charge token `c`
+    vs the same formula with the token removed. -/
+theorem ion_vs_neutral (f : Formula) (c : Charge) (hc : f.charge = some c)
+    (hf : f.WF) (hN : ({ f with charge := none } : Formula).WF) :
+    ∃ m0, formulaMass ({ f with charge := none } : Formula).renderStr = .ok m0 ∧
+      formulaMass f.renderStr = .ok (m0 - (c.val : Rat) * electronMass) :=
+  ⟨_, formulaMass_render _ hN, by rw [formulaMass_render f hf, occurrenceMass_charge f c hc]⟩
+
+/-! ### lookup -/
 
 /-- symbol lookup is inverse to the table, in any ASCII letter case -/
 theorem atomic_number_symbol (i : Nat) (hi : i < 118) (s : String)
-    (hs : lowerStr s = lowerStr (symbols[i]'(by rw [table_is_iupac.2.2.2]; exact hi))) :
+    (hs : lowerStr s = lowerStr (symbols[i]'(by rw [symbols_names_are_iupac.2.2.1]; exact hi))) :
     atomicNumber s = some (i + 1) := atomicNumber_symbol i hi s hs
 
 /-- name lookup is inverse to the table, in any ASCII letter case -/
@@ -183,16 +285,60 @@ theorem atomic_number_sound (s : String) (z : Nat) (h : atomicNumber s = some z)
     1 ≤ z ∧ z ≤ 118 ∧ (lowerStr <$> symbols[z - 1]? = some (lowerStr s) ∨ lowerStr <$> names[z - 1]? = some (lowerStr s)) :=
   atomicNumber_sound s z h
 
-/-- mass fractions: proportional to coefficient × mass, sum to one, positive when every product is -/
+/-! ### mass fractions -/
+
+/-- `mass_fractions` returns exactly for the empty mixture (result empty, as in the code) and for mixtures
+    whose total mass is not zero (ZeroDivisionError otherwise) -/
+theorem mass_fractions_defined_iff (mv : List (Rat × Rat)) :
+    (massFractions mv).isSome ↔ (mv = [] ∨ (mv.map fun p => p.1 * p.2).sum ≠ 0) :=
+  massFractions_isSome_iff mv
+
+/-- mass fractions: proportional to coefficient × mass, sum to one for a NON-EMPTY mixture (the empty mixture
+    gives the empty result, whose sum is 0), positive when every product is -/
 theorem mass_fractions_spec (mv : List (Rat × Rat)) (fr : List Rat) (h : massFractions mv = some fr) :
-    fr.length = mv.length ∧ fr.sum = 1 ∧
+    fr.length = mv.length ∧ (mv ≠ [] → fr.sum = 1) ∧
     (∀ i (hi : i < mv.length) (hj : i < fr.length), fr[i] * (mv.map fun p => p.1 * p.2).sum = mv[i].1 * mv[i].2) ∧
     ((∀ p ∈ mv, 0 < p.1 * p.2) → ∀ x ∈ fr, 0 < x) := massFractions_spec mv fr h
 
-/-- non-vacuity: water and hydroxide -/
+/-! ### non-vacuity -/
+
 example : massFromComposition [(1, 2), (8, 1)] = some (18015 / 1000) := by decide +kernel
 example : massFromComposition [(0, -1), (1, 1), (8, 1)] = some (170075489 / 10000000) := by decide +kernel
+example : massFromComposition [(119, 1)] = none := by decide +kernel
 example : atomicNumber "cO" = some 27 ∧ atomicNumber "hydrogen" = some 1 ∧ atomicNumber "Xx" = none := by decide +kernel
 example : massFractions [(2016 / 1000, 1), (31998 / 1000, 1)] = some [2016 / 34014, 31998 / 34014] := by decide +kernel
+example : massFractions [] = some [] ∧ massFractions [(1, 1), (1, -1)] = none := by decide +kernel
+
+private def d (s : String) : List Char := s.toList
+private def el (z : Nat) (n : ChemModel.Formula.Cnt := .omitted) : Term := .elem z n none []
+private def terms : List Term → Terms := Terms.ofList
+
+def exSodaA : Part := ⟨none, terms [el 11 (.int (d "2")), el 6, el 8 (.int (d "3"))]⟩
+def exSodaB : Part := ⟨some (d "7"), terms [el 1 (.int (d "2")), el 8]⟩
+/-- `Na2CO3..7H2O` -/
+def exSoda : Formula :=
+  { prefixes := [], sep := .dots, parts := [exSodaA, exSodaB], charge := none, suffix := none }
+
+/-- `[Fe(H2O)6]+3` -/
+def exFeAq : Formula :=
+  { prefixes := [], sep := .dots,
+    parts := [⟨none, terms [.group .square (terms [el 26, .group .paren (terms [el 1 (.int (d "2")), el 8]) (.int (d "6")) none []]) .omitted none []]⟩],
+    charge := some ⟨false, some (d "3")⟩, suffix := none }
+
+/-- `(NH4)2` -/
+def exGroup : Term := .group .paren (terms [el 7, el 1 (.int (d "4"))]) (.int (d "2")) none []
+
+example : exSoda.renderStr = "Na2CO3..7H2O" ∧ exSoda.WF ∧ formulaMass "Na2CO3..7H2O" = .ok (23209253856 / 100000000) := by
+  decide +kernel
+example : exSoda.parts = [exSodaA] ++ [exSodaB] ∧ ({ exSoda with parts := [exSodaA] } : Formula).WF ∧
+    (bareFormula exSodaB.terms).WF ∧ exSodaB.mult = 7 := by
+  refine ⟨rfl, by decide +kernel, by decide +kernel, by decide +kernel⟩
+example : exFeAq.renderStr = "[Fe(H2O)6]+3" ∧ exFeAq.WF ∧ ({ exFeAq with charge := none } : Formula).WF ∧
+    formulaMass "[Fe(H2O)6]+3" = .ok (163935 / 1000 - 3 * electronMass) := by decide +kernel
+example : (bareFormula (.cons exGroup .nil)).WF ∧ (bareFormula (terms [el 7, el 1 (.int (d "4"))])).WF ∧
+    (bareFormula (.cons exGroup .nil)).renderStr = "(NH4)2" := by decide +kernel
+example : speciesMass defaultPhases "Hg(g)" = .ok (200592 / 1000) ∧ speciesMass defaultPhases "Cs(s)" = .ok (13290545196 / 100000000) ∧
+    speciesMass defaultPhases "Na(aq)" = .ok (2298976928 / 100000000) := by decide +kernel
+example : formulaMass "Hx" = .error (.parse .parse) := by decide +kernel
 
 end ChemModel.C14
